@@ -221,3 +221,110 @@ def pool(rng, n):
             cfg = dict(val=1, ns=1, sch=1, fc=rng.choice([0, 1]))
         out.append(dict(kind=kind, doc=doc, ext=ext, cfg=cfg))
     return out
+
+
+# ---------------------------------------------------------------------------------------------------------------
+# round-2 additions: DOCTYPE x schema cross product, failing external resources, InputSource / encoding variations
+# ---------------------------------------------------------------------------------------------------------------
+ROOT_DTD = b'<!ENTITY e1 "entity text"><!ELEMENT root ANY><!ATTLIST root ver CDATA "1">'
+COMBO_BODY = ('<item id="x1"><name>nm0</name><code>AB12</code><n>1 2 3</n><u>3.25</u></item>'
+              '<item><name>nm1</name></item><refto k="nm0"/>')
+
+
+def combo_cases():
+    """the full cross product {no DOCTYPE, internal subset, external subset} x {no schema, schemaLocation, preloaded schema}
+    x {namespaces on/off} x {doSchema on/off} x {validation never/always/auto} x {IG, SG, DG, WF};
+    returns list of dict(doc, ext, kv, tag)"""
+    out = []
+    for dt in ("nodtd", "int", "ext"):
+        for sc in ("nosch", "loc", "pre"):
+            attrs = ' xmlns:xsi="http://www.w3.org/2001/XMLSchema-instance"'
+            if sc == "loc":
+                attrs += ' xsi:noNamespaceSchemaLocation="s.xsd"'
+            doctype = {"nodtd": "", "int": "<!DOCTYPE root [%s]>" % ROOT_DTD.decode(), "ext": '<!DOCTYPE root SYSTEM "root.dtd">'}[dt]
+            body = COMBO_BODY.replace("nm0</name>", "nm0&e1;</name>", 1) if dt != "nodtd" else COMBO_BODY
+            doc = ('<?xml version="1.0"?>%s<root%s>%s</root>' % (doctype, attrs, body)).encode()
+            ext = {}
+            if dt == "ext":
+                ext["root.dtd"] = ROOT_DTD
+            if sc != "nosch":
+                ext["s.xsd"] = XSD.encode()
+            for ns in (0, 1):
+                for sch in (0, 1):
+                    for val in (0, 1, 2):
+                        for scn in ("IG", "SG", "DG", "WF"):
+                            kv = dict(ns=ns, sch=sch, val=0 if scn == "WF" else val, scn=scn, preload=1 if sc == "pre" else 0)
+                            out.append(dict(doc=doc, ext=ext, kv=kv, tag="%s-%s-ns%d-sch%d-v%d-%s" % (dt, sc, ns, sch, val, scn)))
+    return out
+
+
+BAD_RESOURCES = {
+    "missing": None,
+    "badenc": b'<?xml version="1.0" encoding="x-no-such-charset-42"?><!-- x -->',
+    "badver": b'<?xml version="9.9"?><!-- x -->',
+    "baddecl": b'<?xml encoding="UTF-8" version="1.0"?><!-- x -->',
+    "garbage": b'\xff\xfe\x00<\x00',
+    "empty": b"",
+    "utf16-odd": b'\xfe\xff\x00<\x00',
+    "forced-unsupported": b"<!-- fine, but the resolver forces an encoding that has no transcoder -->",
+    "forced-contradicting": b'<?xml version="1.0" encoding="UTF-8"?><!-- resolver says UTF-16 -->',
+}
+
+
+def extfail_cases():
+    """documents whose external DTD / parameter entity / general entity (also nested) / schema / schema include / import fails
+    to open or fails in its first line; returns list of dict(doc, ext, extenc, kv, tag)"""
+    out = []
+    for how, content in BAD_RESOURCES.items():
+        def res(name, ext, extenc, good=b""):
+            if content is not None:
+                ext[name] = content if how.startswith(("bad", "garb", "empty", "utf16")) else (good or content)
+            if how == "forced-unsupported":
+                extenc[name] = "x-no-such-charset-42"
+            if how == "forced-contradicting":
+                extenc[name] = "UTF-16"
+        # 1. external DTD subset
+        ext, ee = {}, {}
+        res("bad.dtd", ext, ee, b"<!ELEMENT r ANY>")
+        out.append(dict(doc=b'<?xml version="1.0"?><!DOCTYPE r SYSTEM "bad.dtd"><r>t</r>', ext=ext, extenc=ee,
+                        kv=dict(val=2, ns=1, sch=0), tag="dtd-" + how))
+        # 2. external parameter entity in the internal subset
+        ext, ee = {}, {}
+        res("pe.ent", ext, ee, b"<!ELEMENT r ANY>")
+        out.append(dict(doc=b'<?xml version="1.0"?><!DOCTYPE r [<!ENTITY % pe SYSTEM "pe.ent">%pe;<!ELEMENT q EMPTY>]><r>t</r>',
+                        ext=ext, extenc=ee, kv=dict(val=1, ns=0, sch=0), tag="pe-" + how))
+        # 3. external general entity in content
+        ext, ee = {}, {}
+        res("ge.xml", ext, ee, b"<q/>text")
+        out.append(dict(doc=b'<?xml version="1.0"?><!DOCTYPE r [<!ENTITY ge SYSTEM "ge.xml"><!ELEMENT r ANY><!ELEMENT q EMPTY>]><r>a&ge;b<q/></r>',
+                        ext=ext, extenc=ee, kv=dict(val=1, ns=1, sch=0), tag="ge-" + how))
+        # 4. nested: a good external entity that refers to the failing one
+        ext, ee = {"outer.xml": b"<?xml version='1.0' encoding='UTF-8'?><q/>o&inner;o"}, {}
+        res("inner.xml", ext, ee, b"<q/>i")
+        out.append(dict(doc=b'<?xml version="1.0"?><!DOCTYPE r [<!ENTITY inner SYSTEM "inner.xml"><!ENTITY outer SYSTEM "outer.xml">'
+                            b'<!ELEMENT r ANY><!ELEMENT q EMPTY>]><r>&outer;<q/></r>',
+                        ext=ext, extenc=ee, kv=dict(val=0, ns=1, sch=0), tag="nested-" + how))
+        # 5. schema named by the instance
+        ext, ee = {}, {}
+        res("s.xsd", ext, ee, XSD.encode())
+        out.append(dict(doc=('<?xml version="1.0"?>' + xsd_instance(__import__("random").Random(7), True)).encode(), ext=ext, extenc=ee,
+                        kv=dict(val=1, ns=1, sch=1, fc=1), tag="xsd-" + how))
+        # 6. schema include / import of a failing document
+        for kind in ("include", "import"):
+            ext, ee = {}, {}
+            inc = ('<xs:include schemaLocation="inc.xsd"/>' if kind == "include"
+                   else '<xs:import namespace="urn:other" schemaLocation="inc.xsd"/>')
+            ext["s.xsd"] = XSD.replace('elementFormDefault="qualified">', 'elementFormDefault="qualified">' + inc, 1).encode()
+            res("inc.xsd", ext, ee, b'<xs:schema xmlns:xs="http://www.w3.org/2001/XMLSchema" targetNamespace="urn:other"/>'
+                if kind == "import" else b'<xs:schema xmlns:xs="http://www.w3.org/2001/XMLSchema"/>')
+            out.append(dict(doc=('<?xml version="1.0"?>' + xsd_instance(__import__("random").Random(8), True)).encode(), ext=ext, extenc=ee,
+                            kv=dict(val=1, ns=1, sch=1, fc=0), tag="xsd%s-%s" % (kind, how)))
+    return out
+
+
+ENCODINGS = ["", "UTF-8", "ISO-8859-1", "UTF-16", "US-ASCII", "IBM037", "x-no-such-charset-42", "UCS-4", "utf-8"]
+SRC_KINDS = {"sax": ["mem", "memadopt", "file", "missing", "w4dom", "w4str"], "sax2": ["mem", "memadopt", "file", "missing", "w4dom", "w4str"],
+             "dom": ["mem", "memadopt", "file", "missing", "w4dom", "w4str"], "ls": ["mem", "w4is", "lsstr", "lsuri"]}
+SRC_DOCS = [b'<?xml version="1.0" encoding="UTF-8"?><r a="1"><b>caf\xc3\xa9</b><!-- c --></r>',
+            b'<r><b>plain ascii, no declaration</b></r>',
+            b'<?xml version="1.0" encoding="ISO-8859-1"?><r>\xe9</r>']
